@@ -78,6 +78,7 @@ static Case gen_c03() {
 }
 
 static Verdict check_c03(const Case &c) {
+    if (!in_exact_domain(c.g)) { stats().note_case(c, false); stats().cls("skipped-outside-exact-domain"); return Verdict::pass(); }
     Stats &S = stats();
     bool approx = c.entry.compare(0, 6, "approx") == 0;
 #ifdef MOCKTBB_THREADS
